@@ -4,6 +4,7 @@ import Driver.AmfText
 import Driver.ChunkOps
 import Driver.MsgText
 import Driver.HsOps
+import Driver.SessOps
 open Rml
 
 namespace Driver
@@ -16,6 +17,7 @@ def showB (b : Bool) : String := if b then "1" else "0"
 structure St where
   chunk : ChunkSt := {}
   hs : HsSt := {}
+  sess : SessSt := {}
   dead : Bool := false
 
 def timeOp (a b : Nat) : String :=
@@ -52,7 +54,10 @@ def step (st : St) (line : String) : St × String :=
       | none =>
         match hsOp st.hs (tok :: rest) with
         | some (h, out) => ({ st with hs := h }, out)
-        | none => (st, "bad-op")
+        | none =>
+          match sessOp st.sess (tok :: rest) with
+          | some (x, out) => ({ st with sess := x }, out)
+          | none => (st, "bad-op")
   | _ => (st, "bad-op")
 
 partial def loop (h : IO.FS.Stream) (out : IO.FS.Stream) (st : St) : IO Unit := do
